@@ -339,7 +339,7 @@ def C19(tier, seed):
         before = res.coverage.get("events_validated", 0)
         res.violations += validate_stream(res, "Trace_Pair", out, stream, "C19")
         per[drv + " " + " ".join(a for a in args if not a.startswith("/"))] = res.coverage.get("events_validated", 0) - before
-    if any(v == 0 for v in per.values()): raise Infra("a pair stream is empty: %s" % per)
+    if any(v == 0 for v in per.values()) and not res.violations: raise Infra("a pair stream is empty: %s" % per)
     res.coverage["pairs_by_driver"] = per
     res.coverage["rule"] = ("every driver of the other checks is a template over the character type; in pair mode each case is run for char AND wchar_t and the i-th recorded event of one run is put next to the i-th of the other "
         "(texts as code points, sizes and offsets in characters, output buffers ending at a PROT_NONE page in BYTES so that a size computed in bytes instead of characters overruns or under-fills): parse (6 entry points, prefixes, mid-buffer ranges), "
